@@ -59,6 +59,8 @@ func TestC08(t *testing.T) {
 		r.Parallel(t, "virtual-copy", r.Cfg.pick(4000, 80000), body(joinGen{Discs: discs, NoCopy: -1, Retain: true}))
 		r.Parallel(t, "virtual-nocopy", r.Cfg.pick(4000, 80000), body(joinGen{Discs: discs, NoCopy: 1, Retain: true}))
 		r.Parallel(t, "virtual-v1-stop-before-release", r.Cfg.pick(3000, 60000), body(joinGen{Discs: []string{"v1join"}, NoCopy: 1, Stop: 2}))
+		// ... and at any other point: e.g. while the next slice sits, sent but unread, in the output buffer
+		r.Parallel(t, "virtual-v1-stop-anywhere", r.Cfg.pick(4000, 60000), body(joinGen{Discs: []string{"v1join"}, NoCopy: 1, Stop: 1}))
 	}
 	if part == "" || part == "B" {
 		r.Parallel(t, "race-virtual-mixed", r.Cfg.pick(240, 400), body(joinGen{Discs: discs, Retain: true, Stop: 1}))
